@@ -88,4 +88,42 @@ def identifyAccountT (env : Env) (root : Name) (us : List URI) : Bool :=
 def checkMethodPermT (env : Env) (rule : Option Rule) (us : List URI) : Bool :=
   validate env rule false (build (.key 0) false us)
 
+/-! ### lookup faults: `buildPermTree` asks the manager for the ACL of every NEW node and returns the first error -/
+
+def walkF (bad : Name → Bool) (t : Tree) (p : Nat) : List Name → Option (Tree × Nat)
+  | [] => some (t, p)
+  | n :: rest =>
+    match findChild t p n with
+    | some c => walkF bad t c rest
+    | none =>
+      if bad n then none
+      else
+        let c := t.size
+        let t := t.push ⟨n, false, []⟩
+        let t := t.modify p (fun nd => { nd with children := nd.children ++ [c] })
+        walkF bad t c rest
+
+def insertURIF (bad : Name → Bool) (t : Tree) (path : List Name) : Option Tree :=
+  (walkF bad t 0 path).map (fun (t, p) => t.modify p (fun nd => { nd with terminal := true }))
+
+def buildF (bad : Name → Bool) (rootName : Name) (rootIsAccount : Bool) (us : List URI) : Option Tree :=
+  us.foldlM (fun t u =>
+    if rootIsAccount then
+      match u with
+      | h :: rest => if u.length < 2 || h ≠ rootName then some t else insertURIF bad t rest
+      | [] => some t
+    else insertURIF bad t u) #[⟨rootName, false, []⟩]
+
+def identifyAccountTF (bad : Name → Bool) (env : Env) (root : Name) (us : List URI) : Bool :=
+  if bad root then false
+  else match buildF bad root true us with
+    | none => false
+    | some t => validate env (env root) true t
+
+def checkMethodPermTF (bad : Name → Bool) (badRule : Bool) (env : Env) (rule : Option Rule) (us : List URI) : Bool :=
+  if badRule then false
+  else match buildF bad (.key 0) false us with
+    | none => false
+    | some t => validate env rule false t
+
 end XV.Acl.Tree
